@@ -1,5 +1,6 @@
 import GrmVerif.Lemmas.RecFirst
-import GrmVerif.Model.Recover
+import GrmVerif.Lemmas.RecLive
+import GrmVerif.Props.C05
 /-!
 # C07 — error recovery always progresses and the error list matches the outcome
 
@@ -8,46 +9,18 @@ recoverer). `RecovererOK` is what C05/C06 establish per reported error for the r
 (the first sequence applies and a plain parse then continues over `N` lexemes or to acceptance);
 the theorems derive the shape of the error list for EVERY input. The shape itself is also checked
 directly on every `(value, errors)` the real parser returns.
+
+Liveness: `recRun` is total by construction (constant fuel for `feed`, answer `(false, errs)` when a
+fuel runs out or the driver would crash). `Rec.recRunO` (`Model/RecLive.lean`) is the same loop with
+these cases reported as `none`; `recovering_parse_returns` shows that on an automaton that passes
+`Cert.check` and the termination certificate `Term.termCheckAdj` the answer is never `none` once the
+fuels are large enough (`2·|w| + 2` loop iterations), `recRunO_mono`/`recRunO_unique` that the answer
+does not depend on the fuels, `recovering_parse_result` that this one answer has the whole shape the
+property describes. The vocabulary (`Runs`, `RecovererOK`, `Spaced`, `AllButLastRepaired`) is defined
+in `Lemmas/RecSpec.lean`.
 -/
 namespace GrmVerif.C07
 open GrmVerif Rec LR
-
-/-- from `c` the plain parse shifts `k` further lexemes without an error, or accepts before that -/
-inductive Runs (G : Grammar) (A : Automaton) (w : List Nat) : Nat → Pos → Prop
-  | zero (c : Pos) : Runs G A w 0 c
-  | acc (c : Pos) (k : Nat) (s : List Nat) : feed G A (nextTok G w c.pos) FUEL c.stack = .accept s → Runs G A w k c
-  | shift (c : Pos) (k : Nat) (s : List Nat) : feed G A (nextTok G w c.pos) FUEL c.stack = .shifted s →
-      Runs G A w k ⟨s, c.pos + 1⟩ → Runs G A w (k + 1) c
-
-/-- what a well-behaved recoverer guarantees: it never moves backwards, and from where it leaves
-the parser a plain parse continues over `N` lexemes or to acceptance -/
-def RecovererOK (G : Grammar) (A : Automaton) (w : List Nat) (N : Nat)
-    (recover : Pos → Option (Pos × List (List Repair))) : Prop :=
-  ∀ c c' rs, recover c = some (c', rs) → rs ≠ [] → c.pos ≤ c'.pos ∧ Runs G A w N c'
-
-/-- consecutive errors are at least `N` lexemes apart -/
-def Spaced (N : Nat) : List Err → Prop
-  | [] => True
-  | [_] => True
-  | e1 :: e2 :: rest => e1.pos + N ≤ e2.pos ∧ Spaced N (e2 :: rest)
-
-/-- every error except possibly the last has a repair sequence -/
-def AllButLastRepaired : List Err → Prop
-  | [] => True
-  | [_] => True
-  | e1 :: e2 :: rest => e1.repairs ≠ [] ∧ AllButLastRepaired (e2 :: rest)
-
-theorem spaced_cons {N : Nat} {e : Err} {l : List Err} (hl : Spaced N l)
-    (hh : ∀ e2, l.head? = some e2 → e.pos + N ≤ e2.pos) : Spaced N (e :: l) := by
-  cases l with
-  | nil => trivial
-  | cons e2 rest => exact ⟨hh e2 rfl, hl⟩
-
-theorem allButLast_cons {e : Err} {l : List Err} (hl : AllButLastRepaired l) (he : l ≠ [] → e.repairs ≠ []) :
-    AllButLastRepaired (e :: l) := by
-  cases l with
-  | nil => trivial
-  | cons e2 rest => exact ⟨he (by simp), hl⟩
 
 /-- the run from `c` appends errors that are spaced, start no earlier than `c.pos + k` when the
 plain parse runs `k` lexemes from `c`, all but the last repaired, and all repaired when a value is
@@ -59,78 +32,9 @@ theorem recRun_shape (G : Grammar) (A : Automaton) (w : List Nat) (N : Nat)
       ∃ new, errs' = errs ++ new ∧ Spaced N new ∧ AllButLastRepaired new ∧
         (∀ e, new.head? = some e → c.pos + k ≤ e.pos) ∧
         (v = true → ∀ e ∈ new, e.repairs ≠ []) := by
-  intro fuel
-  induction fuel with
-  | zero =>
-    intro c errs k v errs' _ h
-    simp only [recRun, Prod.mk.injEq] at h
-    exact ⟨[], by simp [h.2], trivial, trivial, by simp, by intro hv; rw [← h.1] at hv; cases hv⟩
-  | succ f ih =>
-    intro c errs k v errs' hruns h
-    simp only [recRun] at h
-    cases hf : feed G A (nextTok G w c.pos) FUEL c.stack with
-    | shifted s =>
-      rw [hf] at h
-      simp only at h
-      have hr' : ∃ k', Runs G A w k' ⟨s, c.pos + 1⟩ ∧ k ≤ k' + 1 := by
-        cases hruns with
-        | zero _ => exact ⟨0, .zero _, by omega⟩
-        | acc _ _ s' ha => rw [hf] at ha; cases ha
-        | shift _ k0 s' hs hr => rw [hf] at hs; injection hs with hs; subst hs; exact ⟨k0, hr, by omega⟩
-      obtain ⟨k', hk', hle⟩ := hr'
-      obtain ⟨new, h1, h2, h3, h4, h5⟩ := ih ⟨s, c.pos + 1⟩ errs k' v errs' hk' h
-      exact ⟨new, h1, h2, h3, fun e he => by have := h4 e he; simp only at this; omega, h5⟩
-    | accept s =>
-      rw [hf] at h
-      simp only [Prod.mk.injEq] at h
-      exact ⟨[], by simp [h.2], trivial, trivial, by simp, by simp⟩
-    | crash =>
-      rw [hf] at h
-      simp only [Prod.mk.injEq] at h
-      exact ⟨[], by simp [h.2], trivial, trivial, by simp, by intro hv; rw [← h.1] at hv; cases hv⟩
-    | fuelOut =>
-      rw [hf] at h
-      simp only [Prod.mk.injEq] at h
-      exact ⟨[], by simp [h.2], trivial, trivial, by simp, by intro hv; rw [← h.1] at hv; cases hv⟩
-    | error s =>
-      rw [hf] at h
-      simp only at h
-      have hk0 : k = 0 := by
-        cases hruns with
-        | zero _ => rfl
-        | acc _ _ s' ha => rw [hf] at ha; cases ha
-        | shift _ k0 s' hs _ => rw [hf] at hs; cases hs
-      subst hk0
-      cases hrec : recover ⟨s, c.pos⟩ with
-      | none =>
-        rw [hrec] at h
-        simp only [Prod.mk.injEq] at h
-        refine ⟨[⟨c.pos, []⟩], by simp [h.2], trivial, trivial, ?_, ?_⟩
-        · intro e he; simp at he; subst he; simp
-        · intro hv; rw [← h.1] at hv; cases hv
-      | some r =>
-        obtain ⟨c', rs⟩ := r
-        rw [hrec] at h
-        simp only at h
-        by_cases hemp : rs.isEmpty = true
-        · rw [if_pos hemp] at h
-          simp only [Prod.mk.injEq] at h
-          refine ⟨[⟨c.pos, []⟩], by simp [h.2], trivial, trivial, ?_, ?_⟩
-          · intro e he; simp at he; subst he; simp
-          · intro hv; rw [← h.1] at hv; cases hv
-        · rw [if_neg hemp] at h
-          have hne : rs ≠ [] := by intro e; subst e; simp at hemp
-          obtain ⟨hpos, hrun⟩ := hok ⟨s, c.pos⟩ c' rs hrec hne
-          simp only at hpos
-          obtain ⟨new, h1, h2, h3, h4, h5⟩ := ih c' (errs ++ [⟨c.pos, rs⟩]) N v errs' hrun h
-          refine ⟨⟨c.pos, rs⟩ :: new, by simp [h1], ?_, ?_, ?_, ?_⟩
-          · exact spaced_cons h2 (fun e2 he => by have := h4 e2 he; simp only; omega)
-          · exact allButLast_cons h3 (fun _ => hne)
-          · intro e he; simp at he; subst he; simp
-          · intro hv e he
-            rcases List.mem_cons.mp he with rfl | he
-            · exact hne
-            · exact h5 hv e he
+  intro fuel c errs k v errs' hr h
+  rw [← recRunF_FUEL] at h
+  exact recRunF_shape G A w N recover hok FUEL (Nat.le_refl _) fuel c errs k v errs' hr h
 
 /-- **Errors are reported in strictly increasing position, at least `N` lexemes apart; every error
 but the last carries a repair sequence; a value implies every error does.** For every input and
@@ -295,5 +199,207 @@ theorem first_error_is_plain_error (G : Grammar) (A : Automaton) (w : List Nat)
           rw [h] at hrest
           simp only [List.nil_append, List.singleton_append, List.cons.injEq] at hrest
           rw [hrest.1]; rfl
+
+/-! ## Liveness: the recovering parse returns -/
+
+/-- **An answer of the instrumented driver is the model's answer.** `recRunO` differs from `recRun`
+only in reporting "a fuel ran out / the driver would crash" as `none` instead of `(false, errs)`: when
+it answers `some r`, the totalised driver with the same fuel for `feed` answers `r`; at the constant
+`FUEL` this is `recRun` itself, so every theorem about `recRun` applies to `r`. No hypothesis. -/
+theorem recRunO_sound (G : Grammar) (A : Automaton) (w : List Nat)
+    (recover : Pos → Option (Pos × List (List Repair))) (ff fuel : Nat) (c : Pos) (errs : List Err)
+    (r : Bool × List Err) (h : recRunO G A w recover ff fuel c errs = some r) :
+    recRunF G A w recover ff fuel c errs = r ∧ (ff = FUEL → recRun G A w recover fuel c errs = r) := by
+  have h1 := recRunO_some_recRunF G A w recover ff fuel c errs r h
+  refine ⟨h1, ?_⟩
+  intro hff; subst hff
+  rw [← recRunF_FUEL]; exact h1
+
+/-- **More fuel gives the same answer**: once the instrumented driver answers `some r`, it answers
+`some r` for every larger fuel of the loop and every larger fuel of `feed`. For every automaton, input
+and recoverer. -/
+theorem recRunO_mono (G : Grammar) (A : Automaton) (w : List Nat)
+    (recover : Pos → Option (Pos × List (List Repair))) (ff ff' fuel fuel' : Nat) (c : Pos)
+    (errs : List Err) (r : Bool × List Err) (hff : ff ≤ ff') (hfuel : fuel ≤ fuel')
+    (h : recRunO G A w recover ff fuel c errs = some r) :
+    recRunO G A w recover ff' fuel' c errs = some r :=
+  recRunO_mono' G A w recover ff ff' hff fuel c errs r h fuel' hfuel
+
+/-- **The answer is unique**: whatever fuels make the instrumented driver answer, the answer is the
+same — "the result of the recovering parse" is well defined. -/
+theorem recRunO_unique (G : Grammar) (A : Automaton) (w : List Nat)
+    (recover : Pos → Option (Pos × List (List Repair))) (ff₁ ff₂ fuel₁ fuel₂ : Nat) (c : Pos)
+    (errs : List Err) (r₁ r₂ : Bool × List Err)
+    (h₁ : recRunO G A w recover ff₁ fuel₁ c errs = some r₁)
+    (h₂ : recRunO G A w recover ff₂ fuel₂ c errs = some r₂) : r₁ = r₂ := by
+  have a := recRunO_mono G A w recover ff₁ (max ff₁ ff₂) fuel₁ (max fuel₁ fuel₂) c errs r₁
+    (Nat.le_max_left _ _) (Nat.le_max_left _ _) h₁
+  have b := recRunO_mono G A w recover ff₂ (max ff₁ ff₂) fuel₂ (max fuel₁ fuel₂) c errs r₂
+    (Nat.le_max_right _ _) (Nat.le_max_right _ _) h₂
+  rw [a] at b
+  exact Option.some.inj b
+
+/-- **A recoverer that continues from a valid sequence satisfies the hypotheses of liveness**
+(`recovering_parse_returns`). If, whenever the recoverer reports sequences, the configuration it continues from is the
+one `applySeq` reaches with a sequence that repairs (`validSeq`, which C05 validates for every
+sequence the real recoverer reports; the real parser continues from the first one) and that inserts
+only tokens of the grammar, then on a certified automaton and an input of real tokens it is
+`RecovererOK` (by `C05.validSeq_runs`) and it hands back stacks that are paths of the automaton
+whenever it is given one (by `Term.stepClosed_isPath` through `feed_path`). -/
+theorem valid_recoverer_ok (G : Grammar) (A : Automaton) (hc : Cert.check G A = true) (w : List Nat)
+    (hw : Cert.InputOk G w) (K : Nat) (recover : Pos → Option (Pos × List (List Repair)))
+    (hv : ContinuesFromValid G A w K recover) :
+    RecovererOK G A w K recover ∧
+    (∀ c c' rs, Term.IsPath A c.stack → recover c = some (c', rs) → rs ≠ [] → Term.IsPath A c'.stack) := by
+  have P := Cert.check_props G A hc
+  constructor
+  · intro c c' rs hrec hne
+    obtain ⟨r, _, hval, happ⟩ := hv c c' rs hrec hne
+    obtain ⟨c'', happ', hpos, hruns⟩ := C05.validSeq_runs G A w K c r hval
+    rw [happ] at happ'
+    injection happ' with happ'; subst happ'
+    exact ⟨hpos, hruns⟩
+  · intro c c' rs hp hrec hne
+    obtain ⟨r, hins, _, happ⟩ := hv c c' rs hrec hne
+    exact applySeq_isPath P hw r c c' hins hp happ
+
+/-- **A parse with recovery always returns** (liveness of the driver model). On an automaton that
+passes `Cert.check` and the termination certificate `Term.termCheckAdj G A N` (both evaluated by the
+driver on the automaton of every case; the certificate holds exactly when the table has no reduction
+loop, cf. `C01.cert_cycle_parse_diverges`), for every input `w` of real tokens and every recoverer
+that is `RecovererOK` with `K ≥ 1` (the real one: `K = 3`) and hands back path stacks (both hold for
+recoverers that continue from a valid sequence: `valid_recoverer_ok`), the instrumented driver
+`recRunO` — `none` = loop fuel exhausted, `feed` out of fuel, or crash — answers: there is a threshold
+`ff0` for the fuel of `feed` and a result `r` such that every `ff ≥ ff0` and every loop fuel
+`≥ 2·|w| + 2` give `some r`. The bound: an iteration shifts a real lexeme, accepts, gives up, or
+recovers, and the iteration after a recovery shifts or accepts because the plain parse `Runs K ≥ 1`
+lexemes from there. The recoverer's own search is a parameter here: that IT returns is the time
+budget of the real code, outside this model. -/
+theorem recovering_parse_returns (G : Grammar) (A : Automaton) (hc : Cert.check G A = true) (N : Nat)
+    (ht : Term.termCheckAdj G A N = true) (w : List Nat) (hw : Cert.InputOk G w) (K : Nat) (hK : 1 ≤ K)
+    (recover : Pos → Option (Pos × List (List Repair))) (hok : RecovererOK G A w K recover)
+    (hpath : ∀ c c' rs, Term.IsPath A c.stack → recover c = some (c', rs) → rs ≠ [] → Term.IsPath A c'.stack) :
+    ∃ ff0 r, ∀ ff fuel, ff0 ≤ ff → 2 * w.length + 2 ≤ fuel →
+      recRunO G A w recover ff fuel ⟨[A.start], 0⟩ [] = some r := by
+  obtain ⟨ff0, r, h⟩ := recRunO_returns (Cert.check_props G A hc) ht hw K hK recover hok hpath
+    (2 * w.length + 2) ⟨[A.start], 0⟩ [] (Term.IsPath.start A) (Or.inl (by simp))
+  exact ⟨ff0, r, fun ff fuel hff hfuel =>
+    recRunO_mono G A w recover ff ff _ fuel _ [] r (Nat.le_refl _) hfuel (h ff hff)⟩
+
+/-- **A value is returned iff every error carries a repair sequence**, for a run that really ended
+(`recRunO … = some (v, errs)`, i.e. not by a fuel): with a value every error has a repair sequence;
+without a value the LAST error has none — the driver gave up there — so not every error has one. For
+every automaton, input and recoverer; no certificate needed. (For the totalised `recRun` only the
+first direction holds: it also answers "no value" when a fuel runs out.) -/
+theorem value_iff_all_repaired (G : Grammar) (A : Automaton) (w : List Nat)
+    (recover : Pos → Option (Pos × List (List Repair))) (ff fuel : Nat) (v : Bool) (errs : List Err)
+    (h : recRunO G A w recover ff fuel ⟨[A.start], 0⟩ [] = some (v, errs)) :
+    (v = true ↔ ∀ e ∈ errs, e.repairs ≠ []) ∧
+    (v = false → ∃ e, errs.getLast? = some e ∧ e.repairs = []) := by
+  obtain ⟨new, h1, h2, h3⟩ := recRunO_outcome G A w recover ff fuel _ [] v errs h
+  simp only [List.nil_append] at h1
+  subst h1
+  refine ⟨⟨h2, ?_⟩, h3⟩
+  intro hall
+  cases v with
+  | true => rfl
+  | false =>
+    obtain ⟨e, hl, hrep⟩ := h3 rfl
+    exact absurd hrep (hall e (List.mem_of_getLast? hl))
+
+/-- **The shape of a run that ended** (`errors_shape`, `errors_bounded` for `recRunO`, any fuels):
+if the instrumented driver answers `some (v, errs)` then the errors are `K` lexemes apart in strictly
+increasing position, all but the last carry a repair sequence, and a value is returned iff all do.
+Hypothesis: `RecovererOK` only. -/
+theorem recRunO_shape (G : Grammar) (A : Automaton) (w : List Nat) (K : Nat)
+    (recover : Pos → Option (Pos × List (List Repair))) (hok : RecovererOK G A w K recover)
+    (ff fuel : Nat) (v : Bool) (errs : List Err)
+    (h : recRunO G A w recover ff fuel ⟨[A.start], 0⟩ [] = some (v, errs)) :
+    Spaced K errs ∧ AllButLastRepaired errs ∧ (v = true ↔ ∀ e ∈ errs, e.repairs ≠ []) := by
+  have h' := recRunO_mono G A w recover ff (max ff FUEL) fuel fuel _ [] _ (Nat.le_max_left _ _)
+    (Nat.le_refl _) h
+  have hF := (recRunO_sound G A w recover _ fuel _ [] _ h').1
+  obtain ⟨new, h1, h2, h3, _, _⟩ := recRunF_shape G A w K recover hok (max ff FUEL) (Nat.le_max_right _ _)
+    fuel _ [] 0 v errs (.zero _) hF
+  simp only [List.nil_append] at h1
+  subst h1
+  exact ⟨h2, h3, (value_iff_all_repaired G A w recover ff fuel v _ h).1⟩
+
+/-- **The recovering parse has one result, and it has the shape the property describes.** Under the
+hypotheses of `recovering_parse_returns` there is a pair `(v, errs)` such that
+(1) the instrumented driver returns it for all sufficiently large fuels (`2·|w| + 2` loop iterations
+    suffice), and whenever it returns anything, with any fuels, it returns this pair;
+(2) the errors are at least `K` lexemes apart in strictly increasing position, all within the input
+    (position `|w|` = end of input), so there are at most `|w|/K + 1` of them;
+(3) every error except possibly the last carries a repair sequence;
+(4) a value is returned iff every error carries a repair sequence, and if no value is returned the
+    last error carries none. -/
+theorem recovering_parse_result (G : Grammar) (A : Automaton) (hc : Cert.check G A = true) (N : Nat)
+    (ht : Term.termCheckAdj G A N = true) (w : List Nat) (hw : Cert.InputOk G w) (K : Nat) (hK : 1 ≤ K)
+    (recover : Pos → Option (Pos × List (List Repair))) (hok : RecovererOK G A w K recover)
+    (hpath : ∀ c c' rs, Term.IsPath A c.stack → recover c = some (c', rs) → rs ≠ [] → Term.IsPath A c'.stack) :
+    ∃ v errs,
+      (∃ ff0, ∀ ff fuel, ff0 ≤ ff → 2 * w.length + 2 ≤ fuel →
+        recRunO G A w recover ff fuel ⟨[A.start], 0⟩ [] = some (v, errs)) ∧
+      (∀ ff fuel r, recRunO G A w recover ff fuel ⟨[A.start], 0⟩ [] = some r → r = (v, errs)) ∧
+      Spaced K errs ∧ (∀ e ∈ errs, e.pos ≤ w.length) ∧ errs.length * K ≤ w.length + K ∧
+      AllButLastRepaired errs ∧
+      (v = true ↔ ∀ e ∈ errs, e.repairs ≠ []) ∧
+      (v = false → ∃ e, errs.getLast? = some e ∧ e.repairs = []) := by
+  obtain ⟨ff0, ⟨v, errs⟩, h⟩ := recovering_parse_returns G A hc N ht w hw K hK recover hok hpath
+  have h0 := h (max ff0 FUEL) (2 * w.length + 2) (Nat.le_max_left _ _) (Nat.le_refl _)
+  obtain ⟨hs, hab, hiff⟩ := recRunO_shape G A w K recover hok _ _ v errs h0
+  obtain ⟨new, hn1, hn2⟩ := recRunO_err_pos (Cert.check_props G A hc) hw K hK recover hok hpath
+    (max ff0 FUEL) (Nat.le_max_right _ _) _ ⟨[A.start], 0⟩ [] (v, errs) (Term.IsPath.start A)
+    (Or.inl (Nat.zero_le _)) h0
+  simp only [List.nil_append] at hn1
+  subst hn1
+  refine ⟨v, errs, ⟨ff0, h⟩, ?_, hs, hn2, ?_, hab, hiff, (value_iff_all_repaired G A w recover _ _ v errs h0).2⟩
+  · intro ff fuel r hr
+    exact recRunO_unique G A w recover _ _ _ _ _ [] _ _ hr h0
+  · have := spaced_length_bound K (by omega) w.length errs 0 hs (fun e he => ⟨Nat.zero_le _, hn2 e he⟩)
+    simpa using this
+
+/-! ### tests: the hypotheses are satisfiable (non-vacuity)
+
+`^ : S; S : 'a' 'b';` (tokens `a` = 0, `b` = 1, end of input = 2) with its LR(0) automaton and table,
+and the recoverer `recoverBy` that tries four fixed candidate sequences and keeps those that repair. -/
+private def exG : Grammar := ⟨3, 2, 2, 0, [(0, [.rule 1]), (1, [.tok 0, .tok 1])], [], []⟩
+private def exA : Automaton :=
+  ⟨0, [⟨[⟨0, 0, [2]⟩], [⟨0, 0, [2]⟩, ⟨1, 0, [2]⟩], [(.rule 1, 1), (.tok 0, 2)], [.shift 2, .error, .error], [none, some 1], [], [], [], false⟩,
+       ⟨[⟨0, 1, [2]⟩], [⟨0, 1, [2]⟩], [], [.error, .error, .accept], [none, none], [], [], [], false⟩,
+       ⟨[⟨1, 1, [2]⟩], [⟨1, 1, [2]⟩], [(.tok 1, 3)], [.error, .shift 3, .error], [none, none], [], [], [], false⟩,
+       ⟨[⟨1, 2, [2]⟩], [⟨1, 2, [2]⟩], [], [.error, .error, .reduce 1], [none, none], [], [], [], true⟩], [], []⟩
+private def exCands : Pos → List (List Repair) :=
+  fun _ => [[.insert 1], [.delete], [.insert 0], [.delete, .delete]]
+
+example : Cert.check exG exA = true := by decide
+example : Term.termCheckAdj exG exA 8 = true := by decide
+
+private theorem exCands_ok : ∀ c, ∀ r ∈ exCands c, InsertsOk exG r := by
+  intro c r hr t ht
+  simp only [exCands, List.mem_cons, List.not_mem_nil, or_false] at hr
+  rcases hr with rfl | rfl | rfl | rfl <;> simp at ht <;> subst ht <;> decide
+
+/-- test: for EVERY input of this grammar the hypotheses of `recovering_parse_returns` hold for the
+recoverer `recoverBy … exCands` with `K = 3`, so its parse returns -/
+example (w : List Nat) (hw : Cert.InputOk exG w) :
+    ∃ ff0 r, ∀ ff fuel, ff0 ≤ ff → 2 * w.length + 2 ≤ fuel →
+      recRunO exG exA w (recoverBy exG exA w 3 exCands) ff fuel ⟨[exA.start], 0⟩ [] = some r :=
+  have hv := valid_recoverer_ok exG exA (by decide) w hw 3 _
+    (recoverBy_continues exG exA w 3 exCands exCands_ok)
+  recovering_parse_returns exG exA (by decide) 8 (by decide) w hw 3 (by omega) _ hv.1 hv.2
+
+/-- the positions and the number of repair sequences of each error, for comparison by `decide` -/
+private def summary (r : Option (Bool × List Err)) : Option (Bool × List (Nat × Nat)) :=
+  r.map (fun x => (x.1, x.2.map (fun e => (e.pos, e.repairs.length))))
+
+/-- tests: `a` (the `b` is missing: one error at end of input, repaired by inserting `b`, a value);
+`b a b` (a stray `b` first: deleted, a value); `b b` (no candidate repairs: one error without repairs,
+no value); within the bound `2·|w| + 2`, and `none` with one iteration less on the first -/
+example : summary (recRunO exG exA [0] (recoverBy exG exA [0] 3 exCands) FUEL 4 ⟨[0], 0⟩ []) = some (true, [(1, 1)]) := by decide
+example : summary (recRunO exG exA [0] (recoverBy exG exA [0] 3 exCands) FUEL 2 ⟨[0], 0⟩ []) = none := by decide
+example : summary (recRunO exG exA [1, 0, 1] (recoverBy exG exA [1, 0, 1] 3 exCands) FUEL 8 ⟨[0], 0⟩ []) = some (true, [(0, 1)]) := by decide
+example : summary (recRunO exG exA [1, 1] (recoverBy exG exA [1, 1] 3 exCands) FUEL 6 ⟨[0], 0⟩ []) = some (false, [(0, 0)]) := by decide
 
 end GrmVerif.C07
